@@ -229,6 +229,10 @@ func (p *Prog) ResolveType(text string, f *spec.File, S *Sorts) (types.Type, str
 	case "Str":
 		return types.Typ[types.String], "Str", nil
 	}
+	if strings.HasPrefix(text, "func(") {
+		// function values are opaque in specs
+		return types.NewSignatureType(nil, nil, nil, nil, nil, false), "Fn", nil
+	}
 	e, err := parser.ParseExpr(text)
 	if err != nil {
 		return nil, "", fmt.Errorf("type %q: %v", text, err)
